@@ -51,7 +51,8 @@ def dominators(fn, forward=True):
             if ps:
                 new = set.intersection(*(dom[p] for p in ps)) | {b}
             else:
-                new = {b}
+                # backward: a dead end (abort) never reaches the exit -- it constrains nothing
+                new = {b} if forward else set(blocks)
             if new != dom[b]:
                 dom[b] = new
                 changed = True
